@@ -24,7 +24,7 @@ Qed.
 
 Lemma step_inv q o : inv q -> inv (step q o).
 Proof.
-  intros [Hd Hp]. destruct o as [|i bs|i|n]; unfold step.
+  intros [Hd Hp]. destruct o as [|i bs|i|n|]; unfold step.
   - (* Get *)
     unfold inv, head_read in *. cbn [bufs rpos popped delivered].
     destruct (bufs q) as [|h t]; cbn [app].
@@ -60,6 +60,8 @@ Proof.
       * destruct t; [reflexivity|lia].
     + split; [|exact Hl].
       rewrite Hd, <- app_assoc. f_equal. exact Hg.
+  - (* Reinit: a fresh queue *)
+    unfold inv, head_read, outq0. cbn. auto.
 Qed.
 
 Theorem run_inv ops : inv (run ops).
